@@ -41,7 +41,7 @@ ASSUMPTIONS = [
     "known finding C15:failed-parse:declared-symbol-survives, probed separately",
 ]
 TIERS = {
-    "quick": {"runs": 10000, "budget_s": 75},
+    "quick": {"runs": 6000, "budget_s": 75},
     "thorough": {"runs": 300000, "budget_s": 900},
 }
 
@@ -584,8 +584,10 @@ def execute(plan, tape):
                 for side in (A, B):
                     on(side, lambda side=side: _prepare_fault(o, term, symbols, side))
                 if fk == "sl_error":
-                    A.smtlib(world)
-                    B.smtlib(world)
+                    # (created with the side's environment as the global one: pySMT's solver
+                    # objects rely on the global environment for parsing and simplification)
+                    on(A, lambda: A.smtlib(world))
+                    on(B, lambda: B.smtlib(world))
                 fn, after = _fault_fn(o, term, symbols, user, A, tape)
                 r = on(A, fn)
                 if fk == "sl_error":
